@@ -403,3 +403,15 @@ def seed_from_env():
 
 def read_ndjson(path):
     return [json.loads(l) for l in open(path) if l.strip()]
+
+
+def build_feedbastion_writer_test():
+    """`go test -c` of /repo/cmd/feedbastion (package main) with an in-package test file supplied through -overlay:
+    the only way to reach the repository's own writer of the add-checkpoint body."""
+    out = os.path.join(HARNESS, "bin", "feedbastion.test")
+    ov = os.path.join(HARNESS, "bin", "overlay-fb.json")
+    json.dump({"Replace": {os.path.join(REPO, "cmd/feedbastion/zz_verif_writer_test.go"): os.path.join(HARNESS, "shims", "feedbastion_writer_test.go")}}, open(ov, "w"))
+    rc, o, dt = sh(["go", "test", "-c", "-vet=off", "-tags", "verif", "-overlay", ov, "-o", out, "./cmd/feedbastion"], cwd=REPO, env=GOENV, timeout=1800)
+    if rc != 0:
+        raise Inconclusive("cmd/feedbastion test binary does not build:\n" + o[-4000:])
+    return out
